@@ -869,6 +869,23 @@ def dbfs_paths_validated(ctx: Ctx, rule: str) -> int:
             out: Set[str] = set()
             for a in atoms:
                 out |= _str_consts(g, a)
+
+            def _predicate_consts(e_: ast.AST) -> Set[str]:
+                # a test that asks a package predicate (`_Layout.has_own_location(dds_p)`): the constants of the tests under which the predicate answers
+                res: Set[str] = set()
+                for c_ in ast.walk(e_):
+                    if isinstance(c_, ast.Call):
+                        for h_ in prog.callees(g, c_, ctx._types)[0]:
+                            if h_.module.name.startswith("dds") and any(isinstance(r_, ast.Return) and isinstance(r_.value, ast.Constant) and isinstance(r_.value.value, bool) for r_ in h_.own_nodes()):
+                                for t_ in h_.own_nodes():
+                                    if isinstance(t_, (ast.If, ast.While)):
+                                        res |= _str_consts(h_, t_.test)
+                                    elif isinstance(t_, ast.comprehension):
+                                        for i_ in t_.ifs:
+                                            res |= _str_consts(h_, i_)
+                return res
+            for a in atoms:
+                out |= _predicate_consts(a)
             if not atoms:
                 # the inverted form of a check: `ok = <conditions>; if ok: return; raise ...` (also after the helper was expanded in place): the raise is what is
                 # left when the tests of the preceding statements of its block let through - their constants, and those of the boolean locals they name
@@ -883,6 +900,7 @@ def dbfs_paths_validated(ctx: Ctx, rule: str) -> int:
                     for st_ in body_[: [i for i, x in enumerate(body_) if x is r][0]]:
                         if isinstance(st_, ast.If):
                             out |= _str_consts(g, st_.test)
+                            out |= _predicate_consts(st_.test)
                             for y in ast.walk(st_.test):
                                 if isinstance(y, ast.Name):
                                     try:
